@@ -295,7 +295,7 @@ class ArrayType(TypeToken):
         return self.length >= 0
 
     def contains_index(self, index: int) -> bool:
-        return self.length < 0 or self.length > index
+        return index >= 0 and (self.length < 0 or self.length > index)
 
 
 ###############################################################################
